@@ -695,6 +695,7 @@ impl<'tcx> Visitor<'tcx> for HirCensus<'tcx> {
 
 fn dump_crate(tcx: TyCtxt<'_>) -> Json {
     let mut bodies: Vec<(String, Json)> = Vec::new();
+    let mut promoted: Vec<(String, Json)> = Vec::new();
     let mut statics: Vec<(String, Json)> = Vec::new();
     let mut adts: Vec<(String, Json)> = Vec::new();
     let mut impls: Vec<Json> = Vec::new();
@@ -718,6 +719,14 @@ fn dump_crate(tcx: TyCtxt<'_>) -> Json {
             _ => continue,
         };
         let tenv = TypingEnv::post_analysis(tcx, def_id);
+        // promoted constants of a function (`&Enum::Variant`, `&[..]` literals): operands name them as
+        // `<path>::promoted[i]`; their bodies let a rule see the value instead of an opaque constant
+        if matches!(kind, DefKind::Fn | DefKind::AssocFn | DefKind::Closure | DefKind::SyntheticCoroutineBody) {
+            for (i, pb) in tcx.promoted_mir(def_id).iter_enumerated() {
+                let pcx = BodyCx { tcx, body: pb, def: def_id, tenv };
+                promoted.push((format!("{}::promoted[{}]", path, i.index()), pcx.dump()));
+            }
+        }
         let cx = BodyCx { tcx, body, def: def_id, tenv };
         let mut o = match cx.dump() {
             Json::Obj(v) => v,
@@ -852,6 +861,7 @@ fn dump_crate(tcx: TyCtxt<'_>) -> Json {
         ("crate".into(), jstr(crate_name)),
         ("rustc".into(), jstr(rustc_interface::util::rustc_version_str().unwrap_or("?"))),
         ("bodies".into(), Json::Obj(bodies)),
+        ("promoted".into(), Json::Obj(promoted)),
         ("statics".into(), Json::Obj(statics)),
         ("adts".into(), Json::Obj(adts)),
         ("impls".into(), Json::Arr(impls)),
